@@ -249,7 +249,7 @@ def _exhaustive_chunk(args):
         info, bad = execute(mod, case)
         if bad:
             st.evaluations += 1
-            if bad[0] not in failures and bad[0] not in known_sigs:
+            if bad[0] not in failures:
                 failures[bad[0]] = (case, bad[1])
         else:
             st.record(case, info)
@@ -399,8 +399,10 @@ def run_property(pid, tier, seed, jobs, budget_s, out=print):
                 if s not in failures or len(canon(v[0])) < len(canon(failures[s][0])):
                     failures[s] = v
 
-    # 5. a signature that belongs to a live known finding is not a new violation
-    new = {s: v for s, v in failures.items() if s not in known_sigs}
+    # 5. every failure found here is new: the trigger classes of live known findings were excluded from
+    #    generation by construction (or masked case by case inside the oracle), so whatever still fails is a
+    #    different violation even when its signature coincides with a known finding's
+    new = dict(failures)
 
     # minimise corpus / exhaustive failures too
     for s in list(new):
